@@ -3,6 +3,7 @@ package nodeutil
 import (
 	"context"
 	"fmt"
+	"github.com/freeconf/yang/fc"
 	"io"
 	"strings"
 
@@ -73,12 +74,26 @@ func (x *XmlNode) Child(r node.ChildRequest) (node.Node, error) {
 		// The XML elements representing list entries MAY be interleaved with elements
 		// for siblings of the list
 		for ndx >= 0 {
+			if err := x.Nodes[ndx].holdsElements(r.Meta); err != nil {
+				return nil, err
+			}
 			found = append(found, x.Nodes[ndx])
 			ndx = x.Find(ndx+1, r.Meta)
 		}
 		return &XmlNode{XMLName: x.XMLName, Nodes: found}, nil
 	}
+	if err := x.Nodes[ndx].holdsElements(r.Meta); err != nil {
+		return nil, err
+	}
 	return x.Nodes[ndx], nil
+}
+
+// holdsElements reports text where the elements of a container or list entry belong, <c>5</c>
+func (x *XmlNode) holdsElements(m meta.Definition) error {
+	if len(x.Nodes) == 0 && x.ContentTrim() != "" {
+		return fmt.Errorf("%w. expected elements inside %s, not text", fc.BadRequestError, m.Ident())
+	}
+	return nil
 }
 
 func (x *XmlNode) Next(r node.ListRequest) (node.Node, []val.Value, error) {
